@@ -540,22 +540,59 @@ Qed.
    functions of that map alone (by construction: they take the snapshot as their only argument). *)
 Lemma reader_isolated pol mo os : forall st st' rid snap,
   reader_view st rid = Some snap ->
-  Forall (fun o => o <> OpOpen rid /\ o <> OpClose rid) os ->
+  Forall (fun o => o <> OpOpen rid /\ o <> OpClose rid /\ o <> OpReopen) os ->
   store_run pol mo st os = Some st' ->
   reader_view st' rid = Some snap.
 Proof.
   induction os as [|o os IH]; intros st st' rid snap Hv HF H; cbn in H.
   - inversion H; subst. exact Hv.
-  - inversion HF as [|? ? [Hno Hnc] HF']; subst.
+  - inversion HF as [|? ? [Hno [Hnc Hnr]] HF']; subst.
     destruct (store_step pol mo st o) as [st1|] eqn:Es; [|discriminate].
     apply (IH st1 st' rid snap); try assumption.
-    destruct o as [ops|r|r]; cbn in Es.
+    destruct o as [ops|r|r| |]; cbn in Es; [| | |inversion Es; subst; exact Hv|contradiction].
     + destruct (exec_batch pol mo (st_map st) ops); [|discriminate]. inversion Es; subst. exact Hv.
     + inversion Es; subst. unfold reader_view in *. cbn.
       destruct (r =? rid) eqn:E; [|exact Hv]. apply Z.eqb_eq in E. subst. contradiction.
     + inversion Es; subst. unfold reader_view in *. cbn.
       rewrite reader_lookup_remove; [exact Hv|]. intros ->. contradiction.
 Qed.
+
+(* whatever is interleaved with the batches — readers opened and closed, the lower level catching up
+   (OpSync), the store closed and reopened over its lower level (OpReopen) — the store's map is the
+   batches applied one after the other, nothing else *)
+Lemma store_map_is_batches pol mo os : forall st st',
+  store_run pol mo st os = Some st' ->
+  exec_batches pol mo (st_map st) (batches_of os) = Some (st_map st').
+Proof.
+  induction os as [|o os IH]; intros st st' H; cbn in H.
+  - inversion H; subst. reflexivity.
+  - destruct (store_step pol mo st o) as [st1|] eqn:Es; [|discriminate].
+    specialize (IH st1 st' H).
+    destruct o as [ops|r|r| |]; cbn in Es |- *.
+    + destruct (exec_batch pol mo (st_map st) ops) as [m1|]; [|discriminate].
+      inversion Es; subst. exact IH.
+    + inversion Es; subst. exact IH.
+    + inversion Es; subst. exact IH.
+    + inversion Es; subst. exact IH.
+    + inversion Es; subst. exact IH.
+Qed.
+
+(* in particular a reader opened after a flush / a reopen sees the batches applied so far *)
+Lemma reader_after_persist pol mo os st st1 st2 rid :
+  store_run pol mo st os = Some st1 ->
+  store_step pol mo st1 (OpOpen rid) = Some st2 ->
+  exists m, exec_batches pol mo (st_map st) (batches_of os) = Some m /\ reader_view st2 rid = Some m.
+Proof.
+  intros H1 H2. exists (st_map st1). split.
+  - exact (store_map_is_batches pol mo os st st1 H1).
+  - cbn in H2. inversion H2; subst. unfold reader_view. cbn. now rewrite Z.eqb_refl.
+Qed.
+
+Example persist_ex :
+  exists st', store_run MergeFirst mo_cat {| st_map := []; st_readers := [] |}
+                [OpBatch [BSet [97] [65]; BSet [98] [66]]; OpOpen 1; OpBatch [BDel [97]]; OpSync; OpOpen 2; OpClose 1; OpClose 2; OpReopen; OpOpen 3]
+              = Some st' /\ reader_view st' 3 = Some [([98], [66])] /\ reader_view st' 1 = None.
+Proof. eexists. vm_compute. repeat split. Qed.
 
 (* a reader opened now sees exactly the current map *)
 Lemma reader_open_sees_current pol mo st rid st' :
